@@ -23,6 +23,7 @@ CONSTANTS
   MaxDup = 1
   Engine = "contract"
   GateUsage = FALSE
+  UsageFaults = FALSE
 INIT Init
 NEXT Next
 VIEW View
